@@ -445,7 +445,7 @@ def h09d_rename(l80, l81, l90, l91, n8, n9, new9, target, tcol, renamed):
                 AST_cross_table_reference_extra_info=Node(table_id=target))
     first = str(m.node_to_ref(7, 1, 0, node))
     assert resolve_label_ref(first, names, labels, sheet_of, False) == [(target, tcol)]
-    tbl = object.__new__(Table)
+    tbl = Table.__new__(Table)
     tbl._model = m
     tbl._table_id = renamed
     tbl.name = "T" + new9                       # the real Table.name setter
